@@ -221,7 +221,10 @@ class RemoteProxy(BaseProxy):
             await self._channel.close()
         except ConnectionError:
             pass
-        await self._reader_task
+        # _handle_remote_requests calls stop() itself when it fails; a
+        # task cannot wait for itself.
+        if asyncio.current_task() is not self._reader_task:
+            await self._reader_task
 
 
 def extract_version(meta: Meta) -> List[int]:
